@@ -19,6 +19,7 @@ import TlshVerif.DriverCodec
 import TlshVerif.DriverCompare
 import TlshVerif.DriverLength
 import TlshVerif.DriverEasy
+import TlshVerif.DriverSerde
 
 open TlshVerif
 
@@ -48,7 +49,7 @@ partial def loop (h : IO.FS.Stream) (ctx : Driver.Ctx) (c : Counts) (maxPrint : 
       loop h ctx { c with unknown := c.unknown + 1 } maxPrint
     | some (lhs, observed) =>
       let toks := lhs.splitOn " "
-      match (Driver.eval ctx toks <|> Driver.evalCodec ctx toks <|> Driver.evalCompare ctx toks <|> Driver.evalLength ctx toks <|> Driver.evalEasy ctx toks) with
+      match (Driver.eval ctx toks <|> Driver.evalCodec ctx toks <|> Driver.evalCompare ctx toks <|> Driver.evalLength ctx toks <|> Driver.evalEasy ctx toks <|> Driver.evalSerde ctx toks) with
       | none =>
         IO.println s!"UNKNOWN {c.lines} | {line.take 200}"
         loop h ctx { c with unknown := c.unknown + 1 } maxPrint
